@@ -114,6 +114,11 @@ def enumerate_cases(tier):
     for total in (2 ** 64 - 1, 2 ** 63, 2 ** 62 + 5):
         for pcrc in (0, 1):
             yield {'kind': 'huge-total', 'declared_total': total, 'plen': 100, 'pcrc': pcrc}
+    # payloads above 64 KiB whose later fragments arrive first
+    for total, ranges in ((100000, [[0, 25000], [25000, 50000], [50000, 75000], [75000, 100000]]), (90000, [[0, 30000], [30000, 89999], [89999, 90000]])):
+        for arrival in ([len(ranges) - 1] + list(range(len(ranges) - 1)), list(reversed(range(len(ranges)))), list(range(len(ranges)))):
+            yield {'total': total, 'ranges': ranges, 'other': {'variant': 'seq', 'total': 7, 'ranges': []}, 'pcrc': 1, 'ycrc': 2,
+                   'ext': [True, False], 'source': 'ref', 'seed': 1, 'arrival': [[0, i] for i in arrival]}
     limit = 4 if tier == 'quick' else 5
     fragsets = [
         (10, [[0, 5], [5, 10]]), (10, [[0, 3], [3, 7], [7, 10]]), (12, [[0, 3], [3, 6], [6, 9], [9, 12]]),
